@@ -141,8 +141,28 @@ func buildC17(e *engine, p *rt.Package) {
 	}
 	e.units = append(e.units, &unit{check: "c17", schema: p.ID, name: "package", prop: func(res *Result) func(t *rapid.T) {
 		respond := pureResponder(p)
-		shared := newServer(p, false)
+		// registrations differ: only the first service installs an error handler (a fixed, pure one). A call
+		// alone is served by a process that registered only its own service, with that service's options.
+		hooked := ""
+		for _, sv := range p.Services {
+			if sv.Register != nil {
+				hooked = sv.Name
+				break
+			}
+		}
+		hookFor := func(name string) bool { return name == hooked }
+		fixedHook := func(w http.ResponseWriter, r *http.Request, err error) proto.Message {
+			var ve *sebufhttp.ValidationError
+			if errors.As(err, &ve) {
+				return nil // validation errors keep their default rendering (violation lists are compared as sets)
+			}
+			w.Header().Set("X-Handled-By", hooked)
+			w.WriteHeader(http.StatusTeapot)
+			return nil
+		}
+		shared := newServerSel(p, hookFor, nil)
 		shared.reset(respond)
+		shared.hook = fixedHook
 		sharedClients := newClients(p, shared)
 		routesWithHeaders := 0
 		for _, r := range rpcs {
@@ -192,8 +212,9 @@ func buildC17(e *engine, p *rt.Package) {
 			// isolated execution: every call alone on a fresh server and fresh clients
 			want := make([]c17Result, len(calls))
 			for i, c := range calls {
-				fresh := newServer(p, false)
+				fresh := newServerSel(p, hookFor, map[string]bool{c.svc.Name: true})
 				fresh.reset(respond)
+				fresh.hook = fixedHook
 				want[i] = runCall(newClients(p, fresh), c)
 			}
 			// concurrent execution through the shared server and clients
